@@ -87,26 +87,32 @@ Theorem C18_repair_id : forall eval has_top sem_false abstractions subsolve safe
 Proof. exact repair_id. Qed.
 Print Assumptions C18_repair_id.
 
-(* FULL STATEMENT (false on the pinned code):
-     forall ..., good g inp -> repair_tree ... inp = Ok (Some t) -> good g t /\ sat t.
-   Refuted for constraints without a free tree constant (has_top = false, e.g. `false`):
-   `if self.check(inp) or not is_successful(self.top_constant): return Some(inp)` returns the
-   violating input.  Class K_no_top_constant; proposed fix C18-repair-no-constant (fix_notop). *)
-Theorem C18_repair_valid_refuted :
-  exists (eval : tree -> res tv) sem_false abstractions subsolve safe_ok inp,
-    check_tree eval inp = Ok false /\
-    repair_tree eval false sem_false abstractions subsolve safe_ok false inp = Ok (Some inp).
-Proof. exact repair_valid_refuted. Qed.
-Print Assumptions C18_repair_valid_refuted.
-
-Theorem C18_repair_valid_partial :
-  forall g sat eval has_top sem_false abstractions subsolve safe_ok fix_notop inp t,
-  eval_correct g sat eval -> subsolve_sound g sat abstractions subsolve ->
-  K_no_top_constant has_top fix_notop = false -> good g inp ->
-  repair_tree eval has_top sem_false abstractions subsolve safe_ok fix_notop inp = Ok (Some t) ->
+(* repair returns only valid inputs.  The model's switch fix_notop is `true` = the code after
+   commit 261d5a9 (constraints without a free tree constant no longer get the violating input
+   back); no guard is needed any more. *)
+Theorem C18_repair_valid :
+  forall g sat eval has_top sem_false abstractions subsolve safe_ok inp t,
+  eval_correct g sat eval -> subsolve_sound g sat abstractions subsolve -> good g inp ->
+  repair_tree eval has_top sem_false abstractions subsolve safe_ok true inp = Ok (Some t) ->
   good g t /\ sat t.
-Proof. exact repair_valid_partial. Qed.
-Print Assumptions C18_repair_valid_partial.
+Proof. exact repair_valid. Qed.
+Print Assumptions C18_repair_valid.
+
+Theorem C18_repair_str_valid :
+  forall g sat first_parse eval has_top sem_false abstractions subsolve safe_ok s t,
+  parser_sound g first_parse -> eval_correct g sat eval -> subsolve_sound g sat abstractions subsolve ->
+  repair_str first_parse eval has_top sem_false abstractions subsolve safe_ok true s = Ok (Some t) ->
+  good g t /\ sat t.
+Proof. exact repair_str_valid. Qed.
+Print Assumptions C18_repair_str_valid.
+
+(* a violated constraint that does not mention the input cannot be repaired: Nothing *)
+Theorem C18_repair_no_constant :
+  forall eval has_top sem_false abstractions subsolve safe_ok inp,
+  has_top = false -> check_tree eval inp = Ok false ->
+  repair_tree eval has_top sem_false abstractions subsolve safe_ok true inp = Ok None.
+Proof. exact repair_no_constant. Qed.
+Print Assumptions C18_repair_no_constant.
 
 (* where a repaired tree comes from: the input itself (then it was valid) or the sub-solver run
    on an abstraction whose verdict was "unknown" *)
@@ -119,15 +125,6 @@ Theorem C18_repair_result :
 Proof. exact repair_result. Qed.
 Print Assumptions C18_repair_result.
 
-Theorem C18_repair_str_valid_partial :
-  forall g sat first_parse eval has_top sem_false abstractions subsolve safe_ok fix_notop s t,
-  parser_sound g first_parse -> eval_correct g sat eval -> subsolve_sound g sat abstractions subsolve ->
-  K_no_top_constant has_top fix_notop = false ->
-  repair_str first_parse eval has_top sem_false abstractions subsolve safe_ok fix_notop s = Ok (Some t) ->
-  good g t /\ sat t.
-Proof. exact repair_str_valid_partial. Qed.
-Print Assumptions C18_repair_str_valid_partial.
-
 Theorem C18_repair_str_syntax :
   forall first_parse eval has_top sem_false abstractions subsolve safe_ok fix_notop s,
   first_parse START s = None ->
@@ -135,51 +132,61 @@ Theorem C18_repair_str_syntax :
 Proof. exact repair_str_syntax. Qed.
 Print Assumptions C18_repair_str_syntax.
 
-(* K_safe_api: with the installed `returns` (safe_ok = false) repair crashes with TypeError as
-   soon as an abstraction evaluates to "unknown" — i.e. it can never repair anything *)
-Theorem C18_repair_safe_crash :
+(* every tree returned by mutate satisfies the constraint: for every number of loop iterations
+   (fuel), every position k in the mutant stream and every mutant stream *)
+Theorem C18_mutate_valid :
+  forall g sat eval has_top sem_false abstractions subsolve safe_ok mutant inp fuel k t,
+  eval_correct g sat eval -> subsolve_sound g sat abstractions subsolve -> mutant_valid g mutant ->
+  good g inp ->
+  mutate_loop eval has_top sem_false abstractions subsolve safe_ok true mutant inp fuel k = Some (Ok t) ->
+  good g t /\ sat t.
+Proof. exact mutate_valid. Qed.
+Print Assumptions C18_mutate_valid.
+
+Theorem C18_mutate_str_valid :
+  forall g sat first_parse eval has_top sem_false abstractions subsolve safe_ok mutant s fuel t,
+  parser_sound g first_parse -> eval_correct g sat eval -> subsolve_sound g sat abstractions subsolve ->
+  mutant_valid g mutant ->
+  mutate_str first_parse eval has_top sem_false abstractions subsolve safe_ok true mutant s fuel = Some (Ok t) ->
+  good g t /\ sat t.
+Proof. exact mutate_str_valid. Qed.
+Print Assumptions C18_mutate_str_valid.
+
+(* ---- history: what the two fixes repaired.  These are statements about the model with the
+   pre-fix switches (fix_notop = false, safe_ok = false); the check forces both switches to
+   `true` for findings whose status is `fixed`, so a regression to this behaviour is a VIOLATION.
+   prefix_repair / prefix_mutate: before 261d5a9 a constraint without tree constant got the
+   violating input / a violating mutant back.  prefix_safe_crash: before 9ee6a19, with
+   returns 0.29, repair raised TypeError at the first abstraction with verdict "unknown". ---- *)
+Theorem C18_prefix_repair_returned_invalid :
+  exists (eval : tree -> res tv) sem_false abstractions subsolve safe_ok inp,
+    check_tree eval inp = Ok false /\
+    repair_tree eval false sem_false abstractions subsolve safe_ok false inp = Ok (Some inp).
+Proof. exact repair_valid_refuted. Qed.
+Print Assumptions C18_prefix_repair_returned_invalid.
+
+Theorem C18_prefix_mutate_returned_invalid :
+  exists (eval : tree -> res tv) sem_false abstractions subsolve safe_ok mutant inp t,
+    mutate_tree eval false sem_false abstractions subsolve safe_ok false mutant inp 1 = Some (Ok t) /\
+    check_tree eval t = Ok false.
+Proof. exact mutate_valid_refuted. Qed.
+Print Assumptions C18_prefix_mutate_returned_invalid.
+
+Theorem C18_prefix_safe_crash :
   forall eval has_top sem_false abstractions subsolve safe_ok fix_notop a inp,
   safe_ok = false -> has_top = true -> sem_false inp = false -> abstractions inp = [a] ->
   eval inp = Ok FF -> eval a = Ok UU ->
   repair_tree eval has_top sem_false abstractions subsolve safe_ok fix_notop inp = Raise TypeErr.
 Proof. exact repair_safe_crash. Qed.
-Print Assumptions C18_repair_safe_crash.
-
-(* FULL STATEMENT (false on the pinned code): every tree returned by mutate satisfies the
-   constraint.  Refuted in the same class K_no_top_constant. *)
-Theorem C18_mutate_valid_refuted :
-  exists (eval : tree -> res tv) sem_false abstractions subsolve safe_ok mutant inp t,
-    mutate_tree eval false sem_false abstractions subsolve safe_ok false mutant inp 1 = Some (Ok t) /\
-    check_tree eval t = Ok false.
-Proof. exact mutate_valid_refuted. Qed.
-Print Assumptions C18_mutate_valid_refuted.
-
-(* for every number of loop iterations (fuel) and every mutant stream *)
-Theorem C18_mutate_valid_partial :
-  forall g sat eval has_top sem_false abstractions subsolve safe_ok fix_notop mutant inp fuel k t,
-  eval_correct g sat eval -> subsolve_sound g sat abstractions subsolve -> mutant_valid g mutant ->
-  K_no_top_constant has_top fix_notop = false -> good g inp ->
-  mutate_loop eval has_top sem_false abstractions subsolve safe_ok fix_notop mutant inp fuel k = Some (Ok t) ->
-  good g t /\ sat t.
-Proof. exact mutate_valid_partial. Qed.
-Print Assumptions C18_mutate_valid_partial.
-
-Theorem C18_mutate_str_valid_partial :
-  forall g sat first_parse eval has_top sem_false abstractions subsolve safe_ok fix_notop mutant s fuel t,
-  parser_sound g first_parse -> eval_correct g sat eval -> subsolve_sound g sat abstractions subsolve ->
-  mutant_valid g mutant -> K_no_top_constant has_top fix_notop = false ->
-  mutate_str first_parse eval has_top sem_false abstractions subsolve safe_ok fix_notop mutant s fuel = Some (Ok t) ->
-  good g t /\ sat t.
-Proof. exact mutate_str_valid_partial. Qed.
-Print Assumptions C18_mutate_str_valid_partial.
+Print Assumptions C18_prefix_safe_crash.
 
 (* non-vacuity: a concrete instantiation satisfies the premises and exercises every branch *)
 Example C18_nonvacuous :
   parser_sound ex_g ex_parse /\ eval_definite ex_g ex_eval /\ eval_correct ex_g ex_sat ex_eval /\
   subsolve_sound ex_g ex_sat ex_abs ex_sub /\ sat_respects_eqv ex_g ex_sat /\
   good ex_g ex_eps_parser /\ ~ ex_sat ex_eps_parser /\
-  repair_tree ex_eval true (fun _ => false) ex_abs ex_sub true false ex_eps_parser = Ok (Some ex_t) /\
-  K_no_top_constant true false = false.
+  repair_tree ex_eval true (fun _ => false) ex_abs ex_sub true true ex_eps_parser = Ok (Some ex_t) /\
+  mutate_tree ex_eval true (fun _ => false) ex_abs ex_sub true true (fun _ _ => Ok ex_eps_fuzzer) ex_t 3 = Some (Ok ex_t).
 Proof.
   split; [exact ex_parser_sound|]. split; [exact ex_eval_definite|]. split; [exact ex_eval_correct|].
   split; [exact ex_subsolve_sound|]. split; [exact ex_sat_respects_eqv|].
